@@ -119,3 +119,10 @@ def fingerprint(r, clauses):
 def sample(r):
     return dict(section_ids=[''.join(chr(c) for c in s['id']) for s in r['abs']['secs']][:12],
                 pel_bytes=len(r['bytes']), keys=r['keys'][:12], outcome=r['outcome'])
+
+
+def corrupt(r):
+    if r['outcome'] != 'doc' or not r['keys']:
+        return None
+    r['keys'][-1] = r['keys'][-1] + 'x'
+    return r
